@@ -14,10 +14,32 @@ pub struct Obs {
   pub events: usize,
 }
 
+/// 0 = the pipeline is alone on its hot source; 1 = an unsubscribed pipeline sits ahead of it;
+/// 2 = a take(1) pipeline sits ahead of it (a function of the script, so that replays agree)
+pub fn bystander_mode(chain: &Chain, script: &[N]) -> u64 {
+  if matches!(chain.src, Src::Hot(0)) {
+    hash64(&script) % 4
+  } else {
+    0
+  }
+}
+
 /// run one chain against the real library: subscribe, then inject the script
 pub fn observe(flavor: Flavor, chain: &Chain, script: &[N]) -> Result<Obs, String> {
   catch(|| {
     let mut w = World::new(flavor, 1);
+    // a hot source is shared: in half of the hot cases another pipeline was registered on it
+    // first and is over (unsubscribed, or finished by itself) when the events arrive
+    match bystander_mode(chain, script) {
+      1 => {
+        let b = w.subscribe(&Chain::new(Src::Hot(0), vec![]), 2);
+        w.unsubscribe(b);
+      }
+      2 => {
+        w.subscribe(&Chain::new(Src::Hot(0), vec![Op::Take(1)]), 2);
+      }
+      _ => {}
+    }
     w.subscribe(chain, 1);
     for n in script {
       match chain.src {
@@ -113,6 +135,9 @@ fn check_case(cfg: &Cfg, rep: &mut Report, id: &str, chain: &Chain, script: &[N]
   }
   for n in chain.api_names() {
     rep.set("operators_covered", n);
+  }
+  if matches!(bystander_mode(chain, script), 1 | 2) {
+    rep.count("hot_cases_behind_a_closed_pipeline_on_the_same_source", 1);
   }
   if nontrivial(chain, script) {
     rep.nontrivial.insert(hash64(&(chain, script)));
